@@ -1,22 +1,29 @@
 """C17 - Sketchy memory reallocation respects the budget.
 
-Decided statically on `create_redist_dict` / `create_groups`:
-  R1  leftover accounting: the body of the top-up loop is interpreted abstractly over the difference
-      domain  rank = dim + c,  c in {<= -3, -2, -1, 0}  (rank <= dim is asserted before the loop) and
-      extra in {1, >= 2}: in every class  0 <= d(rank) <= -d(extra),  rank' <= dim,  and once the budget
-      is used up (extra' <= 0) the loop leaves; with `allocated <= budget` asserted before the loop this
-      gives  sum(rank) <= budget  at return;
-  R2  dominance / order inside the per-group loop: every rank is asserted <= dim, `allocated` is the sum of
-      the ranks, the budget is re-read for the group and `allocated <= budget` asserted, before the top-up
-      and before the ranks are written out with the group's own keys;
-  R3  every rank handed out in the proportional phase is `dim` or rd(share) with rd(x) = int(x // 1) + 1
-      (>= 1 for x >= 0) and every division feeding a share is guarded by a POSITIVITY test of its
-      denominator (the remaining score is a float32 difference and can cancel to a negative number);
-      each layer is charged rd - 1 against the pool that was reduced by one unit per layer up front;
-  R4  groups are keyed by the axis dimension (`dim` entry, else rows of `eigvecs`), the budget of a group is
-      group size * base rank.
-Not decided: that the proportional phase never trips its own assertions (then no allocation is returned,
-which does not contradict C17); behaviour under python -O.
+`create_redist_dict` and `create_groups` are plain python bookkeeping over dicts.  They are interpreted abstractly
+(pvstatic.imp: symbolic values, zone + sign domains, one symbolic iteration per loop from a havocked head, path
+splitting on the code's own tests) and the rules below are stated on what the interpretation yields - which dict
+the ranks live in, what each loop does to it, which facts hold where - never on names or statement text.
+
+Roles are found by data flow: RANKS is the dict handed to the last call of a group iteration (the write-out), the
+group G is the other argument of that call that was looked up under the loop's own key d (the axis dimension),
+the budget is B = len(G) * <sketchy_rank parameter>; the proportional loop P and the top-up loop T are the loops
+that store into RANKS before / after the budget assertion.
+
+  R1  top-up loop T: there is a pool variable E with  1 <= E0 <= B - sum(RANKS)  at entry such that in every path
+      of one iteration (invariants: E >= 1, every rank <= d)  ranks do not decrease, d(ranks) + d(E) <= 0,
+      every stored rank <= d, E' >= 0, and the loop continues only with E' >= 1.  Hence sum(RANKS) <= B at exit.
+  R2  at the write-out the facts  sum(RANKS) <= B  and  "every rank <= d"  hold (established by assertions on every
+      path) and nothing but T touches RANKS in between; the write-out receives G and RANKS.
+  R3  proportional loop P: there is a pool variable C with  0 <= C0 <= B - len(G)  at entry such that every path
+      of one iteration (invariants: C >= 0, scores >= 0) stores exactly one rank A, keyed by the current layer,
+      A an integer >= 1, the pool is charged at least A - 1, every division has a denominator the path knows
+      to be POSITIVE (a float32 difference can cancel to a negative number, truthiness is not enough), and the
+      remaining-score variable decreases by at most the layer's own score.
+  R4  create_groups keys every layer by its axis dimension (the `dim` entry, else the number of rows of
+      `eigvecs`) and puts each layer name into exactly the group of its key.
+Not decided: that the proportional phase never trips its own assertions for float scores (then no allocation is
+returned); behaviour under python -O.
 """
 from __future__ import annotations
 
@@ -24,298 +31,406 @@ import ast
 
 import sympy as sp
 
-from ..lib import norm_src
+from .. import imp
+from ..imp import Interp, Facts, DictObj, cell, dsum, plen, opq
 from ..model import AnalysisError
 
 RM = 'tearfree.reallocation'
 
-ASSUMPTIONS = ['scores are non-negative finite floats', 'assert statements are executed (no python -O)']
+ASSUMPTIONS = ['scores are non-negative finite floats', 'assert statements are executed (no python -O)',
+               'the nested helper functions of create_redist_dict are pure (same arguments, same result)']
 
 
-class _Break(Exception):
-  pass
-
-
-class Interp:
-  """Tiny symbolic interpreter for the top-up loop body (integers as sympy expressions)."""
-
-  def __init__(self, env):
-    self.env = dict(env)
-    self.broke = False
-
-  def ev(self, n):
-    if isinstance(n, ast.Constant):
-      return sp.Integer(n.value) if isinstance(n.value, int) else sp.nsimplify(n.value)
-    if isinstance(n, ast.Name):
-      if n.id not in self.env:
-        raise AnalysisError(f'top-up loop reads unknown name `{n.id}`')
-      return self.env[n.id]
-    if isinstance(n, ast.Subscript):
-      key = norm_src(n)
-      if key not in self.env:
-        raise AnalysisError(f'top-up loop reads unknown cell `{key}`')
-      return self.env[key]
-    if isinstance(n, ast.BinOp):
-      a, b = self.ev(n.left), self.ev(n.right)
-      if isinstance(n.op, ast.Add):
-        return a + b
-      if isinstance(n.op, ast.Sub):
-        return a - b
-      if isinstance(n.op, ast.Mult):
-        return a * b
-      raise AnalysisError(f'top-up loop: unsupported operator {type(n.op).__name__}')
-    if isinstance(n, ast.UnaryOp) and isinstance(n.op, ast.USub):
-      return -self.ev(n.operand)
-    if isinstance(n, ast.Call) and isinstance(n.func, ast.Name) and n.func.id in ('min', 'max') and len(n.args) == 2:
-      a, b = self.ev(n.args[0]), self.ev(n.args[1])
-      d = self.truth(sp.Le(a, b))
-      if n.func.id == 'min':
-        return a if d else b
-      return b if d else a
-    if isinstance(n, ast.IfExp):
-      return self.ev(n.body) if self.cond(n.test) else self.ev(n.orelse)
-    raise AnalysisError(f'top-up loop: unsupported expression `{norm_src(n)}`')
-
-  def truth(self, rel):
-    r = sp.simplify(rel)
-    if r is sp.true:
-      return True
-    if r is sp.false:
-      return False
-    raise AnalysisError(f'top-up loop: comparison `{rel}` not decided inside an ordering class')
-
-  def cond(self, n):
-    if isinstance(n, ast.Compare) and len(n.ops) == 1:
-      a, b = self.ev(n.left), self.ev(n.comparators[0])
-      op = {ast.Lt: sp.Lt, ast.LtE: sp.Le, ast.Gt: sp.Gt, ast.GtE: sp.Ge, ast.Eq: sp.Eq, ast.NotEq: sp.Ne}.get(type(n.ops[0]))
-      if op is None:
-        raise AnalysisError('top-up loop: unsupported comparison')
-      return self.truth(op(a, b))
-    if isinstance(n, ast.BoolOp):
-      vals = [self.cond(v) for v in n.values]
-      return all(vals) if isinstance(n.op, ast.And) else any(vals)
-    if isinstance(n, ast.UnaryOp) and isinstance(n.op, ast.Not):
-      return not self.cond(n.operand)
-    raise AnalysisError(f'top-up loop: unsupported condition `{norm_src(n)}`')
-
-  def store(self, target, val):
-    if isinstance(target, ast.Name):
-      self.env[target.id] = val
-    elif isinstance(target, ast.Subscript):
-      self.env[norm_src(target)] = val
-    else:
-      raise AnalysisError('top-up loop: unsupported store target')
-
-  def run(self, stmts):
-    for s in stmts:
-      if isinstance(s, ast.Assign) and len(s.targets) == 1:
-        self.store(s.targets[0], self.ev(s.value))
-      elif isinstance(s, ast.AugAssign):
-        cur = self.ev(s.target)
-        v = self.ev(s.value)
-        self.store(s.target, cur + v if isinstance(s.op, ast.Add) else cur - v if isinstance(s.op, ast.Sub) else (_ for _ in ()).throw(AnalysisError('augassign op')))
-      elif isinstance(s, ast.If):
-        self.run(s.body if self.cond(s.test) else s.orelse)
-      elif isinstance(s, ast.Break):
-        self.broke = True
-        raise _Break()
-      elif isinstance(s, (ast.Pass, ast.Expr)):
-        pass
-      else:
-        raise AnalysisError(f'top-up loop: unsupported statement `{norm_src(s)[:60]}`')
+def _short(e, n=110):
+  s = str(e)
+  s = s.replace('opq(getitem, ', 'item(')
+  return s if len(s) <= n else s[:n] + '...'
 
 
 def run(ctx):
   m = ctx.model
   fi = m.func(RM, 'create_redist_dict')
   ctx.analysed(fi)
-  # locate the per-group loop
-  groups_loop = None
-  for n in ast.walk(fi.node):
-    if isinstance(n, ast.For) and norm_src(n.iter) == 'group_dict':
-      groups_loop = n
-  if groups_loop is None:
-    raise AnalysisError('create_redist_dict: `for dim in group_dict` loop not found')
-  dim_name = groups_loop.target.id
-  body = groups_loop.body
-  # top-up: `if allocated < budget:` containing a for loop over the sorted scores
-  topup_if = None
-  for i, s in enumerate(body):
-    if isinstance(s, ast.If) and any(isinstance(x, ast.For) for x in s.body) and 'allocated' in norm_src(s.test):
-      topup_if, topup_pos = s, i
-  if topup_if is None:
-    raise AnalysisError('create_redist_dict: top-up block (`if allocated < group_resource`) not found')
-  topup(ctx, fi, topup_if, dim_name)
-  order(ctx, fi, body, topup_pos, dim_name)
-  proportional(ctx, fi, body, dim_name)
+  rank_param = sp.Symbol('param:sketchy_rank', integer=True, positive=True)
+  ip = Interp(fi.node, params={'sketchy_rank': rank_param})
+  paths = ip.run()
+  if not paths:
+    raise AnalysisError('create_redist_dict: no path reaches the end')
+  # second pass with the per-group loop variable (an axis dimension) typed as a positive integer
+  typed = {}
+  for p, rv in paths:
+    for e in _group_loops(p):
+      if isinstance(e[1].target, ast.Name):
+        typed[e[2].env[e[1].target.id].name] = dict(integer=True, positive=True)
+  ip = Interp(fi.node, params={'sketchy_rank': rank_param}, typed=typed)
+  paths = ip.run()
+  n_groups = 0
+  for p, rv in paths:
+    gl = _group_loops(p)
+    if len(gl) != 1:
+      raise AnalysisError(f'create_redist_dict: expected one per-group loop, found {len(gl)}')
+    n_groups += 1
+    group_iteration(ctx, fi, ip, gl[0])
+  ctx.need('C17.R2', n_groups, 1, 'per-group loop')
   groups(ctx)
 
 
-def topup(ctx, fi, blk, dim_name):
-  test = norm_src(blk.test)
-  ok = test in ('allocated < group_resource', 'group_resource > allocated')
-  ctx.ob('C17.R1', fi.short, 'top-up only when budget is left', ok, f'the top-up must run only when allocated < budget; got `{test}`', ctx.loc(fi, blk), sample=test)
-  init = [s for s in blk.body if isinstance(s, ast.Assign)]
-  loop = [s for s in blk.body if isinstance(s, ast.For)]
-  if len(loop) != 1 or not init:
-    raise AnalysisError('top-up block: expected `extra = budget - allocated` and one loop')
-  oki = norm_src(init[0]) == 'extra = group_resource - allocated'
-  ctx.ob('C17.R1', fi.short, 'extra = budget - allocated', oki, f'the top-up pool must be budget - allocated; got `{norm_src(init[0])}`', ctx.loc(fi, init[0]),
-         sample='extra = group_resource - allocated')
-  lp = loop[0]
-  key_t = lp.target.elts[0].id if isinstance(lp.target, ast.Tuple) else (lp.target.id if isinstance(lp.target, ast.Name) else None)
-  if key_t is None:
-    raise AnalysisError('top-up loop target not recognised')
-  cell = f'realloc[{key_t}]'
-  dim = sp.Symbol('dim', integer=True, positive=True)
-  n = 0
-  for c in (-3, -2, -1, 0):
-    for ecls in ('1', '>=2'):
-      k = sp.Symbol('k', integer=True, nonnegative=True)
-      E0 = sp.Integer(1) if ecls == '1' else k + 2
-      R0 = dim + c
-      it = Interp({dim_name: dim, cell: R0, 'extra': E0, key_t: sp.Symbol('key')})
-      try:
-        it.run(lp.body)
-      except _Break:
-        pass
-      R1, E1 = it.env[cell], it.env['extra']
-      dR, dE = sp.simplify(R1 - R0), sp.simplify(E1 - E0)
-      cname = f'rank {"<= dim-3" if c == -3 else ("= dim" + (str(c) if c else ""))}, extra {ecls}'
-      checks = [
-          (sp.simplify(dR) >= 0, f'rank changes by {dR} (must not decrease)'),
-          (sp.simplify(dR + dE) <= 0, f'rank grows by {dR} but the pool is charged {-dE}: the group can exceed its budget'),
-          (sp.simplify(R1 - dim) <= 0, f'rank becomes dim + {sp.simplify(R1 - dim)} > dim'),
-      ]
-      exhausted = sp.simplify(E1 <= 0)
-      if exhausted is sp.true:
-        checks.append((it.broke, f'the pool is exhausted (extra\' = {E1}) but the loop does not leave: the next layer may get a rank the budget does not cover'))
-      bad = [msg for okc, msg in checks if okc is not True and okc is not sp.true]
-      n += 1
-      ctx.ob('C17.R1', fi.short, f'top-up accounting [{cname}]', not bad, '; '.join(bad), ctx.loc(fi, lp),
-             sample=f'[{cname}] d(rank)={dR}, d(extra)={dE}, leaves={it.broke}')
-  ctx.need('C17.R1', n, 8, 'ordering classes of the top-up loop')
-  src = norm_src(lp.iter)
-  ctx.ob('C17.R1', fi.short, 'top-up visits the group\'s own layers', src == 'sorted_scores', f'the top-up must iterate the group\'s sorted scores; got `{src}`', ctx.loc(fi, lp),
-         sample='for (key, _) in sorted_scores')
+def _group_loops(p):
+  """the per-group loop: its iterations fill a dict of ranks in a nested loop and hand it to a local function"""
+  loops = [e for e in p.events if e[0] == 'loop']
+  return [e for e in loops if any(x[0] == 'loop' and any(y[0] == 'dict-store' for qq, _ in x[3] for y in qq.events[x[5]:]) for q, _ in e[3] for x in q.events[e[5]:])
+          and any(x[0] == 'call' and not str(x[1]).startswith('.') and any(isinstance(a, DictObj) for a in x[5]) for q, _ in e[3] for x in q.events[e[5]:])]
 
 
-def order(ctx, fi, body, topup_pos, dim_name):
-  srcs = [norm_src(s) for s in body]
-
-  def find(pred, what):
-    for i, s in enumerate(srcs):
-      if pred(s):
-        return i
-    return None
-  i_assert_dim = find(lambda s: s.startswith('for key in realloc:') and f'assert realloc[key] <= {dim_name}' in s, 'rank<=dim asserts')
-  i_alloc = find(lambda s: s == 'allocated = sum(realloc.values())', 'allocated')
-  i_reset = find(lambda s: s.replace(' ', '') == f'(_,_,group_resource)=grp_info({dim_name})' or s.replace(' ', '') == f'_,_,group_resource=grp_info({dim_name})', 'budget reset')
-  i_assert_budget = find(lambda s: s.startswith('assert allocated <= group_resource'), 'budget assert')
-  i_store = find(lambda s: s == 'redist_dict = alloc_fn(redist_dict, group, realloc)', 'store')
-  idx = [i_assert_dim, i_alloc, i_reset, i_assert_budget, topup_pos, i_store]
-  names = ['assert rank <= dim (all keys)', 'allocated = sum(ranks)', 'budget re-read for the group', 'assert allocated <= budget', 'top-up', 'write-out alloc_fn(redist_dict, group, realloc)']
-  ok = all(i is not None for i in idx) and idx == sorted(idx) and len(set(idx)) == len(idx)
-  missing = [n for n, i in zip(names, idx) if i is None]
-  ctx.ob('C17.R2', fi.short, 'assertions dominate top-up and write-out', ok,
-         ('missing: ' + ', '.join(missing)) if missing else f'statements out of order (positions {idx}): the budget / upper-bound assertions must precede the top-up and the write-out',
-         ctx.loc(fi), sample=' -> '.join(names))
-  # grp_info: budget = group size * base rank
-  gi = None
-  for n in ast.walk(fi.node):
-    if isinstance(n, ast.FunctionDef) and n.name == 'grp_info':
-      gi = n
-  if gi is None:
-    raise AnalysisError('grp_info not found')
-  src = ' '.join(norm_src(s) for s in gi.body)
-  ok = 'group = group_dict[dim]' in src and 'group_size = len(group)' in src and ('group_resource = group_size * sketchy_rank' in src or 'group_resource = sketchy_rank * group_size' in src)
-  ctx.ob('C17.R4', fi.short, 'budget = group size * base rank', ok, f'grp_info must return (group, len(group), len(group) * sketchy_rank); got `{src[:160]}`', ctx.loc(fi, gi),
-         sample='group_resource = group_size * sketchy_rank')
+def _last_key(e):
+  """d such that e == <groups>[d] (subscript of an opaque mapping); None otherwise."""
+  if isinstance(e, opq) and len(e.args) == 3 and e.args[0] == sp.Symbol('getitem'):
+    return e.args[2]
+  return None
 
 
-def proportional(ctx, fi, body, dim_name):
-  # rd
-  rd = None
-  outl = None
-  for n in ast.walk(fi.node):
-    if isinstance(n, ast.FunctionDef) and n.name == 'rd':
-      rd = n
-    if isinstance(n, ast.FunctionDef) and n.name == 'is_outlier':
-      outl = n
-  if rd is None or outl is None:
-    raise AnalysisError('rd / is_outlier not found')
-  src = norm_src(rd.body[-1])
-  ctx.ob('C17.R3', fi.short, 'rd(x) = int(x // 1) + 1', src == 'return int(x // 1) + 1', f'rd must round down and add one (>= 1 for x >= 0); got `{src}`', ctx.loc(fi, rd), sample=src)
-  # divisions guarded by positivity
-  n_div = 0
-  for node in ast.walk(fi.node):
-    if isinstance(node, ast.IfExp) and isinstance(node.body, ast.BinOp) and isinstance(node.body.op, ast.Div):
-      den = norm_src(node.body.right)
-      test = norm_src(node.test)
-      n_div += 1
-      ok = test in (f'{den} > 0', f'{den} > 0.0', f'0 < {den}', f'0.0 < {den}')
-      orelse = norm_src(node.orelse)
-      ctx.ob('C17.R3', fi.short, f'division by {den} guarded by {den} > 0', ok and orelse in ('0.0', '0'),
-             f'`{norm_src(node)}`: the remaining score is a float32 difference that can cancel to a negative number; a truthiness test lets a negative per-unit resource through and rd() hands out a rank <= 0',
-             ctx.loc(fi, node), sample=norm_src(node))
-  for node in ast.walk(fi.node):
-    if isinstance(node, ast.BinOp) and isinstance(node.op, ast.Div):
-      par_ok = False
-      for p in ast.walk(fi.node):
-        if isinstance(p, ast.IfExp) and p.body is node:
-          par_ok = True
-      if not par_ok:
-        ctx.ob('C17.R3', fi.short, f'unguarded division {norm_src(node)}', False, 'every division in the allocation must be guarded by a positivity test of its denominator', ctx.loc(fi, node))
-  ctx.need('C17.R3', n_div, 2, 'guarded divisions')
-  # stores into realloc inside the proportional loop
-  main = None
-  for s in body:
-    if isinstance(s, ast.For) and norm_src(s.iter) == 'sorted_scores' and any('is_outlier' in norm_src(x) for x in ast.walk(s) if isinstance(x, ast.If)):
-      main = s
-  if main is None:
-    raise AnalysisError('proportional loop not found')
-  pv = main.target.id if isinstance(main.target, ast.Name) else None
-  ifs = [x for x in main.body if isinstance(x, ast.If)]
-  ok = len(ifs) == 1
-  if ok:
-    br = ifs[0]
-    t = norm_src(br.test)
-    ok = t == f'is_outlier({pv}[1], total_score, group_resource, {dim_name} - 1)'
-    a = [norm_src(x) for x in br.body]
-    b = [norm_src(x) for x in br.orelse]
-    ok_a = a == [f'realloc.update({{{pv}[0]: {dim_name}}})', f'group_resource -= {dim_name} - 1', f'total_score -= {pv}[1]']
-    ok_b = len(b) == 4 and b[0].startswith('unit_rsc = group_resource / total_score if total_score') and \
-        b[1] == f'realloc.update({{{pv}[0]: rd({pv}[1] * unit_rsc)}})' and b[2] == f'group_resource -= rd({pv}[1] * unit_rsc) - 1' and b[3] == f'total_score -= {pv}[1]'
-    ctx.ob('C17.R3', fi.short, 'outlier layers get dim and are charged dim - 1', ok and ok_a,
-           f'an outlier layer must receive rank dim, be charged dim - 1 and leave the score pool; got test `{t}` body {a}', ctx.loc(fi, br),
-           sample='realloc[key] = dim; budget -= dim - 1; total -= score')
-    ctx.ob('C17.R3', fi.short, 'other layers get rd(share) and are charged rd(share) - 1', ok and ok_b,
-           f'a regular layer must receive rd(score * unit) and be charged exactly rd(score * unit) - 1; got {b}', ctx.loc(fi, br),
-           sample='realloc[key] = rd(s * unit); budget -= rd(s * unit) - 1; total -= score')
-  else:
-    ctx.ob('C17.R3', fi.short, 'proportional loop shape', False, 'expected one outlier/regular branch per layer', ctx.loc(fi, main))
-  # one unit per layer reserved up front
-  srcs = [norm_src(s) for s in body]
-  ok = 'group_resource -= group_size' in srcs and any(s.startswith('assert group_resource >= group_size') for s in srcs) and \
-      srcs.index('group_resource -= group_size') < srcs.index(norm_src(main))
-  ctx.ob('C17.R3', fi.short, 'one rank per layer reserved before sharing', ok,
-         'the pool shared proportionally must be budget - group size (every layer keeps rank >= 1 without exceeding the budget)', ctx.loc(fi),
-         sample='assert budget >= n; budget -= n')
-  o = ' '.join(norm_src(s) for s in outl.body)
-  ok = 'allocated_rsc = rd(score * unit_rsc) - 1' in o and 'return allocated_rsc > dim' in o
-  ctx.ob('C17.R3', fi.short, 'outlier test: share beyond dim - 1', ok, f'is_outlier must compare rd(score * unit) - 1 with its dim argument; got `{o[:160]}`', ctx.loc(fi, outl),
-         sample='rd(score * unit) - 1 > dim - 1')
+def group_iteration(ctx, fi, ip, gev):
+  _, gnode, ghead, gpaths, git, gn0, gpre = gev
+  if not gpaths:
+    raise AnalysisError('per-group loop: no path reaches the end of an iteration')
+  for q, _ in gpaths:
+    evs = q.events[gn0:]
+    calls = [e for e in evs if e[0] == 'call' and not str(e[1]).startswith('.') and any(isinstance(a, DictObj) for a in e[5])]
+    if not calls:
+      ctx.ob('C17.R2', fi.short, 'write-out receives the ranks', False, 'no call in the per-group iteration receives the dict of ranks', ctx.loc(fi, gnode))
+      continue
+    W = calls[-1]
+    ranks = [a for a in W[5] if isinstance(a, DictObj)][-1]
+    oid = ranks.oid
+    # the group: an argument looked up under a key; that key is the group's dimension d
+    G = d = None
+    for a in W[5]:
+      if isinstance(a, sp.Basic) and _last_key(a) is not None and ghead.env and any(_last_key(a) == v for v in ghead.env.values() if isinstance(v, sp.Basic)):
+        G, d = a, _last_key(a)
+    if G is None:
+      ctx.ob('C17.R2', fi.short, 'write-out receives the group', False,
+             f'the write-out call must receive the group (the list looked up under the loop key) and the ranks; got {[_short(a) for a in W[2]]}', ctx.loc(fi, W[3]))
+      continue
+    B = plen(G) * sp.Symbol('param:sketchy_rank', integer=True, positive=True)
+    wfacts = W[4]
+    # which loops store into RANKS, and where is the budget assertion?
+    stores_loops = [e for e in evs if e[0] == 'loop' and any(x[0] == 'dict-store' and x[1] == oid for qq, _ in e[3] for x in qq.events[e[5]:])]
+    direct = [e for e in evs if e[0] == 'dict-store' and e[1] == oid]
+    S_syms = [a for a in wfacts_atoms(wfacts) if isinstance(a, dsum)]
+    tag = 'top-up taken' if len(stores_loops) > 1 else 'no top-up'
+    ok_b = False
+    S = None
+    for a in S_syms:
+      if wfacts.entails(sp.Le(a, B, evaluate=False)):
+        ok_b, S = True, a
+    ctx.ob('C17.R2', fi.short, f'sum(ranks) <= len(group) * sketchy_rank known at the write-out [{tag}]', ok_b,
+           'on this path no assertion establishes  sum(ranks) <= len(group) * sketchy_rank  (with the budget re-derived from the group itself) '
+           'before the ranks are topped up and written out', ctx.loc(fi, W[3]), sample='assert sum(ranks) <= len(group) * sketchy_rank')
+    if not ok_b:
+      continue
+    Dsym = S.args[0]
+    # every rank <= d, as a universal fact on that dict version
+    k0 = sp.Symbol('k0')
+    ok_u = False
+    for ds, ph, kind, e in q.univ:
+      if ds == Dsym:
+        f = wfacts.copy()
+        f.add(kind, e.subs(ph, k0))
+        if f.entails(sp.Le(cell(Dsym, k0), d, evaluate=False)):
+          ok_u = True
+    ctx.ob('C17.R2', fi.short, f'every rank <= dim known at the write-out [{tag}]', ok_u,
+           'no assertion over all keys establishes rank <= dim (the dimension that defines this group) before the write-out', ctx.loc(fi, W[3]),
+           sample='for key in ranks: assert ranks[key] <= dim')
+    # order: P ... sum(ranks) bounded ... [T] ... W, and no other mutation after the bound was established
+    vS = int(str(Dsym).rsplit('v', 1)[1])
+    before = [e for e in stores_loops if _dict_of(e[6], oid).version < vS]
+    after = [e for e in stores_loops if _dict_of(e[6], oid).version >= vS]
+    stray = [e for e in direct if e[6] >= vS]
+    ctx.ob('C17.R2', fi.short, f'ranks change after the budget assertion only inside the top-up loop [{tag}]', not stray and len(after) <= 1,
+           'a store into the ranks after `assert sum(ranks) <= budget` and outside the top-up loop is not covered by any accounting', ctx.loc(fi, gnode),
+           sample='assert ...; top-up loop; write-out', trivial=True)
+    if len(before) != 1:
+      ctx.ob('C17.R3', fi.short, 'one proportional loop fills the ranks', False, f'expected one loop storing ranks before the budget assertion, found {len(before)}', ctx.loc(fi, gnode))
+    else:
+      proportional(ctx, fi, ip, before[0], oid, G, d, B)
+    for T in after:
+      topup(ctx, fi, ip, T, oid, d, B, S)
+
+
+def wfacts_atoms(f):
+  out = set()
+  for kind, e in f.items:
+    if e is not None and isinstance(e, sp.Basic):
+      out |= e.atoms(sp.Function)
+  return out
+
+
+def _loop_vars(ip, ev):
+  node, head = ev[1], ev[2]
+  tn = {n.id for n in ast.walk(node.target) if isinstance(n, ast.Name)}
+  out = {}
+  for n in sorted(ip._assigned(node.body) - tn):
+    v = head.env.get(n)
+    if isinstance(v, sp.Symbol):
+      out[n] = v
+  return out
+
+
+def _rerun(ip, ev, facts=(), univ=()):
+  node, head = ev[1], ev[2]
+  st = head.clone()
+  for r in facts:
+    fs = st.facts.assume(r)
+    if len(fs) != 1:
+      raise AnalysisError('loop invariant is not a conjunction')
+    st.facts = fs[0]
+  st.univ = list(st.univ) + list(univ)
+  n0 = len(st.events)
+  return [(p, p.events[n0:]) for p, rv in ip.block(node.body, st)]
+
+
+def _dict_of(st, oid):
+  for dd in st.dicts():
+    if dd.oid == oid:
+      return dd
+  raise AnalysisError('ranks dict not reachable in loop head state')
+
+
+def topup(ctx, fi, ip, T, oid, d, B, S):
+  node, head, pre = T[1], T[2], T[6]
+  lv = _loop_vars(ip, T)
+  Dh = _dict_of(head, oid).sym()
+  K = sp.Symbol('K*')
+  univ = [(Dh, K, 'le', sp.expand(cell(Dh, K) - d))]
+  best = None
+  for name, E in lv.items():
+    E0 = pre.env.get(name)
+    probs = []
+    if not isinstance(E0, sp.Basic):
+      continue
+    if not pre.facts.entails(sp.Le(E0, B - S, evaluate=False)):
+      probs.append(f'entry: pool `{name}` = {_short(E0)} is not known to be <= budget - sum(ranks)')
+    if not pre.facts.entails(sp.Ge(E0, 1, evaluate=False)):
+      probs.append(f'entry: pool `{name}` = {_short(E0)} is not known to be >= 1 (the loop must only run when budget is left)')
+    Ei = sp.Symbol(E.name, integer=True)
+    paths = _rerun_subst(ip, T, {E: Ei}, [sp.Ge(Ei, 1, evaluate=False)], univ)
+    n_paths = 0
+    for p, evs in paths:
+      n_paths += 1
+      E1 = p.env.get(name)
+      stores = {}
+      for e in evs:
+        if e[0] == 'dict-store' and e[1] == oid:
+          stores[e[2]] = e[3]
+      dR = sp.Integer(0)
+      desc = []
+      for k, v in stores.items():
+        old = cell(Dh, k)
+        # reading the old value instantiates "every rank <= d"
+        p.facts.add('le', sp.expand(old - d))
+        if v is None or not isinstance(v, sp.Basic):
+          probs.append('a rank is overwritten by a non-numeric value')
+          continue
+        dR += v - old
+        if not p.facts.entails(sp.Ge(v, old, evaluate=False)):
+          probs.append(f'a rank can decrease: {_short(old)} -> {_short(v)}')
+        if not p.facts.entails(sp.Le(v, d, evaluate=False)):
+          probs.append(f'a rank can exceed dim: new value {_short(v)}')
+        desc.append(f'{_short(v - old)}')
+      if not isinstance(E1, sp.Basic):
+        probs.append('pool variable is not numeric after the iteration')
+        continue
+      dE = sp.expand(E1 - Ei)
+      if not p.facts.entails(sp.Le(sp.expand(dR + dE), 0, evaluate=False)):
+        probs.append(f'ranks grow by {sp.expand(dR)} while the pool is charged {sp.expand(-dE)}: the group can exceed its budget')
+      if not p.facts.entails(sp.Ge(E1, 0, evaluate=False)):
+        probs.append(f'the pool can become negative ({_short(E1)})')
+      if not p.broke and not p.facts.entails(sp.Ge(E1, 1, evaluate=False)):
+        probs.append(f'the loop continues with an exhausted pool (pool\' = {_short(E1)} not known >= 1): the next layer gets a rank the budget does not cover')
+    if n_paths == 0:
+      probs.append('no feasible path through the loop body')
+    cand = (len(probs), name, probs, n_paths)
+    if best is None or cand < best:
+      best = cand
+  if best is None:
+    ctx.ob('C17.R1', fi.short, 'top-up accounting', False, 'the top-up loop changes ranks but keeps no pool variable', ctx.loc(fi, node))
+    return
+  nprob, name, probs, n_paths = best
+  ctx.need('C17.R1', n_paths, 2, 'paths through one top-up iteration')
+  ctx.ob('C17.R1', fi.short, 'top-up accounting: ranks + pool never grow, ranks stay <= dim, loop leaves when the pool is used up', not probs,
+         '; '.join(dict.fromkeys(probs)), ctx.loc(fi, node), sample=f'pool `{name}`: {n_paths} paths, d(ranks) + d(pool) <= 0')
+
+
+def _rerun_subst(ip, ev, subst, facts, univ):
+  """re-run one iteration with some head symbols replaced (e.g. by integer-typed twins)."""
+  node, head = ev[1], ev[2]
+  st = head.clone()
+  for k, v in list(st.env.items()):
+    if isinstance(v, sp.Basic):
+      st.env[k] = v.subs(subst)
+  for r in facts:
+    fs = st.facts.assume(r)
+    if len(fs) != 1:
+      raise AnalysisError('loop invariant is not a conjunction')
+    st.facts = fs[0]
+  st.univ = list(st.univ) + list(univ)
+  n0 = len(st.events)
+  return [(p, p.events[n0:]) for p, rv in ip.block(node.body, st)]
+
+
+def proportional(ctx, fi, ip, P, oid, G, d, B):
+  node, head, pre = P[1], P[2], P[6]
+  lv = _loop_vars(ip, P)
+  # scores are non-negative: every component of the loop item
+  item_atoms = set()
+  for v in head.env.values():
+    if isinstance(v, sp.Basic):
+      for a in v.atoms(sp.Function):
+        if isinstance(a, opq) and a.args and a.args[0] == sp.Symbol('getitem'):
+          item_atoms.add(a)
+  tvals = [head.env[n.id] for n in ast.walk(node.target) if isinstance(n, ast.Name) and n.id in head.env]
+  item_syms = set()
+  for v in tvals:
+    if isinstance(v, sp.Basic):
+      item_syms |= v.free_symbols
+  nonneg = []
+  for v in tvals:
+    if isinstance(v, sp.Symbol):
+      for i in (0, 1):
+        nonneg.append(sp.Ge(opq(sp.Symbol('getitem'), v, sp.Integer(i)), 0, evaluate=False))
+    elif isinstance(v, sp.Basic):
+      nonneg.append(sp.Ge(v, 0, evaluate=False))
+  d_pos = sp.Ge(d, 1, evaluate=False)
+  best = None
+  for name, C in lv.items():
+    C0 = pre.env.get(name)
+    if not isinstance(C0, sp.Basic):
+      continue
+    probs = []
+    if not pre.facts.entails(sp.Le(C0, B - plen(G), evaluate=False)):
+      probs.append(f'entry: pool `{name}` = {_short(C0)} is not known to be <= budget - len(group) (one rank per layer must be set aside before sharing)')
+    if not pre.facts.entails(sp.Ge(C0, 0, evaluate=False)):
+      probs.append(f'entry: pool `{name}` = {_short(C0)} is not known to be >= 0')
+    paths = _rerun(ip, P, [sp.Ge(C, 0, evaluate=False), d_pos] + nonneg)
+    n_paths = 0
+    for p, evs in paths:
+      n_paths += 1
+      stores = [(e[2], e[3]) for e in evs if e[0] == 'dict-store' and e[1] == oid]
+      keys = {k for k, _ in stores}
+      if len(keys) != 1:
+        probs.append(f'an iteration stores {len(keys)} ranks (exactly one, for the current layer, is required)')
+        continue
+      k, A = stores[-1]
+      if not (isinstance(k, sp.Basic) and k.free_symbols & item_syms):
+        probs.append(f'the rank is stored under `{_short(k)}`, not under the current layer')
+      if not isinstance(A, sp.Basic):
+        probs.append('the stored rank is not numeric')
+        continue
+      if not A.is_integer:
+        probs.append(f'the stored rank `{_short(A)}` is not integer-valued')
+      if not p.facts.entails(sp.Ge(A, 1, evaluate=False)):
+        probs.append(f'the stored rank `{_short(A)}` is not known to be >= 1')
+      C1 = p.env.get(name)
+      if not isinstance(C1, sp.Basic) or not p.facts.entails(sp.Ge(sp.expand(C - C1 - (A - 1)), 0, evaluate=False)):
+        probs.append(f'the pool is charged {_short(sp.expand(C - C1)) if isinstance(C1, sp.Basic) else "?"} for a rank of {_short(A)} (must be at least rank - 1)')
+      for e in evs:
+        if e[0] == 'div' and not e[2]:
+          probs.append(f'division by `{_short(e[1])}` whose positivity is not established on this path (a float32 difference can cancel to a negative number; truthiness is not enough)')
+      # remaining-score variables: other loop variables used as denominators
+      for e in evs:
+        if e[0] == 'div':
+          for n2, t in lv.items():
+            if n2 != name and e[1] == t:
+              t1 = p.env.get(n2)
+              if not isinstance(t1, sp.Basic):
+                continue
+              delta = sp.expand(t - t1)
+              share = [a for a in A.atoms(sp.floor)]
+              sc = None
+              for fl in share:
+                x = fl.args[0]
+                cand = sp.simplify(x * t / C)
+                if not (cand.free_symbols & {t, C}):
+                  sc = cand
+              if sc is not None and not p.facts.entails(sp.Le(delta, sc, evaluate=False)):
+                probs.append(f'the remaining score `{n2}` decreases by {_short(delta)}, more than the layer\'s own score {_short(sc)}')
+    if n_paths == 0:
+      probs.append('no feasible path through the loop body')
+    cand = (len(probs), name, probs, n_paths)
+    if best is None or cand < best:
+      best = cand
+  if best is None:
+    ctx.ob('C17.R3', fi.short, 'proportional loop accounting', False, 'the proportional loop keeps no pool variable', ctx.loc(fi, node))
+    return
+  nprob, name, probs, n_paths = best
+  ctx.need('C17.R3', n_paths, 2, 'paths through one proportional iteration')
+  probs = list(dict.fromkeys(probs))
+  groups_ = {'entry': [x for x in probs if x.startswith('entry')], 'division': [x for x in probs if x.startswith('division')],
+             'rank': [x for x in probs if x not in [y for y in probs if y.startswith(('entry', 'division'))]]}
+  ctx.ob('C17.R3', fi.short, 'one rank per layer is set aside before sharing (pool <= budget - len(group), >= 0)', not groups_['entry'],
+         '; '.join(groups_['entry']), ctx.loc(fi, node), sample=f'pool `{name}` at entry: budget - len(group)')
+  ctx.ob('C17.R3', fi.short, 'every division of the proportional phase has a positive denominator', not groups_['division'],
+         '; '.join(groups_['division']), ctx.loc(fi, node), sample='x / total if total > 0 else 0.0')
+  ctx.ob('C17.R3', fi.short, 'each layer gets one integer rank >= 1 and the pool is charged at least rank - 1', not groups_['rank'],
+         '; '.join(groups_['rank']), ctx.loc(fi, node), sample=f'{n_paths} paths: rank in {{dim, floor(share) + 1}}, pool -= rank - 1')
 
 
 def groups(ctx):
   m = ctx.model
   fg = m.func(RM, 'create_groups')
   ctx.analysed(fg)
-  src = ' '.join(norm_src(s) for s in ast.walk(fg.node) if isinstance(s, ast.If) and "'dim' in carry" in norm_src(s.test))
-  ok = "key = carry['dim']" in src and "key = carry['eigvecs'].shape[0]" in src
-  ctx.ob('C17.R4', fg.short, 'groups keyed by the axis dimension', ok,
-         f'layers must be grouped by their axis dimension: carry["dim"] or the number of rows of eigvecs (not the sketch rank); got `{src[:200]}`', ctx.loc(fg),
-         sample="key = carry['dim'] | carry['eigvecs'].shape[0]")
-  body = ' '.join(norm_src(s) for s in fg.node.body)
-  ok = 'group_dict[key].append(name)' in body and 'group_dict[key] = [name]' in body
-  ctx.ob('C17.R4', fg.short, 'every layer lands in exactly one group', ok, 'each layer name must be appended to the group of its key', ctx.loc(fg), sample='group_dict[key].append(name)')
+  ip = Interp(fg.node)
+  paths = ip.run()
+  loops = [e for p, _ in paths for e in p.events if e[0] == 'loop']
+  outer = [e for e in loops if any(x[0] == 'dict-store' or (x[0] == 'call' and x[1] == '.append') for q, _ in e[3] for x in q.events[e[5]:])]
+  if len(outer) != 1:
+    raise AnalysisError(f'create_groups: expected one loop over the layers, found {len(outer)}')
+  ev = outer[0]
+  node, head = ev[1], ev[2]
+  name_sym = head.env.get(node.target.id) if isinstance(node.target, ast.Name) else None
+  n_paths = 0
+  keys_seen = set()
+  ok_member = True
+  ok_key = True
+  why = []
+  for q, _ in ev[3]:
+    n_paths += 1
+    evs = q.events[ev[5]:]
+    placed = []
+    for e in evs:
+      if e[0] == 'dict-store':
+        placed.append((e[2], 'new', e[3]))
+      if e[0] == 'call' and e[1] == '.append' and isinstance(e[2][0], cell):
+        placed.append((e[2][0].args[1], 'append', e[2][1] if len(e[2]) > 1 else None))
+    if len(placed) != 1:
+      ok_member = False
+      why.append(f'a layer is placed {len(placed)} times')
+      continue
+    k, how, val = placed[0]
+    member = val if how == 'append' else (val[0] if isinstance(val, imp.Tup) and len(val) == 1 else None)
+    if name_sym is None or member is None or imp.as_sym(member) != name_sym:
+      ok_member = False
+      why.append(f'the group receives `{_short(imp.as_sym(val) if val is not None else None)}`, not the layer name')
+    # key: <node>['dim'] or <node>['eigvecs'].shape[0]
+    form = None
+    if isinstance(k, opq) and k.args[0] == sp.Symbol('getitem'):
+      base, sub = k.args[1], k.args[2]
+      if sub == sp.Symbol('str:dim'):
+        form = 'dim'
+      elif sub == 0 and isinstance(base, opq) and base.args[0] == sp.Symbol('attr:shape') and isinstance(base.args[1], opq) and \
+          base.args[1].args[0] == sp.Symbol('getitem') and base.args[1].args[2] == sp.Symbol('str:eigvecs'):
+        form = 'eigvecs.shape[0]'
+    has_dim = sp.Symbol  # placeholder to keep flake quiet
+    in_dim = [e for kind, e in q.facts.items if kind in ('true', 'false') and str(e).startswith('in(str:dim,')]
+    cond_dim = any(kind == 'true' for kind, e in q.facts.items if str(e).startswith('in(str:dim,'))
+    cond_nodim = any(kind == 'false' for kind, e in q.facts.items if str(e).startswith('in(str:dim,'))
+    if form is None or (form == 'dim' and not cond_dim) or (form == 'eigvecs.shape[0]' and not cond_nodim):
+      ok_key = False
+      why.append(f'group key `{_short(k)}` is not the axis dimension (the `dim` entry when present, else the rows of `eigvecs`)')
+    keys_seen.add(form)
+  ctx.need('C17.R4', n_paths, 4, 'paths through create_groups (dim entry present/absent x group new/existing)')
+  ctx.ob('C17.R4', fg.short, 'groups keyed by the axis dimension', ok_key and keys_seen == {'dim', 'eigvecs.shape[0]'},
+         '; '.join(dict.fromkeys(w for w in why if 'key' in w)) or f'key forms seen: {sorted(str(x) for x in keys_seen)}', ctx.loc(fg, node),
+         sample="key = node['dim'] | node['eigvecs'].shape[0]")
+  ctx.ob('C17.R4', fg.short, 'every layer lands in exactly one group', ok_member, '; '.join(dict.fromkeys(w for w in why if 'key' not in w)), ctx.loc(fg, node),
+         sample='groups[key].append(name) | groups[key] = [name]')
